@@ -10,11 +10,11 @@ open Chalk.FixedPoint.Cyc (JE JA MinLe InCache InGraph Def Undef flagAt StackExt
   stackGoals_append stackGoals_nonstack)
 
 section
-variable {inst : Instance} {P : Nat → Prop} {dom : List Nat} {lvl : Nat → Nat}
+variable {inst : Instance} {P : Nat → Prop} {dom : List Nat} {lvl : Nat → Nat} {fx : Bool}
 variable {s0 st s1 : St} {g : Nat} {old cur : V} {m : Min} {new : List Node}
 
 /-- a node of the final graph, seen in `s1` -/
-theorem After.node1 (A : After inst P dom lvl s0 st s1 g old cur m new) {h5 : Node} {i : Nat} {n : Node}
+theorem After.node1 (A : After inst P dom lvl fx s0 st s1 g old cur m new) {h5 : Node} {i : Nat} {n : Node}
     (hn : (s0.graph ++ h5 :: new)[i]? = some n) :
     ∃ n', s1.graph[i]? = some n' ∧
       ((i = s0.graph.length ∧ n = h5 ∧ n' = headNode s0 g old) ∨ (i ≠ s0.graph.length ∧ n' = n)) := by
@@ -22,7 +22,7 @@ theorem After.node1 (A : After inst P dom lvl s0 st s1 g old cur m new) {h5 : No
   exact ⟨n', by rw [A.g1]; exact hn', hc⟩
 
 /-- a node of `s1`, seen in the final graph: same goal -/
-theorem After.node5 (A : After inst P dom lvl s0 st s1 g old cur m new) {h5 : Node} (hgo : h5.goal = g)
+theorem After.node5 (A : After inst P dom lvl fx s0 st s1 g old cur m new) {h5 : Node} (hgo : h5.goal = g)
     {i : Nat} {n : Node} (hn : s1.graph[i]? = some n) :
     ∃ n', (s0.graph ++ h5 :: new)[i]? = some n' ∧ n'.goal = n.goal := by
   rw [A.g1] at hn
@@ -32,10 +32,10 @@ theorem After.node5 (A : After inst P dom lvl s0 st s1 g old cur m new) {h5 : No
   | inl h => rw [h.2.1, h.2.2]; exact hgo
   | inr h => rw [h.2]
 
-theorem After.finish_keep (A : After inst P dom lvl s0 st s1 g old cur m new) {s5 : St} (Pp : Popped s0 s1 s5)
+theorem After.finish_keep (A : After inst P dom lvl fx s0 st s1 g old cur m new) {s5 : St} (Pp : Popped s0 s1 s5)
     (hfl : ¬ flagAt s1.stack s0.stack.length ∨ old = cur) (l : Nat) (hm : m = some l)
     (hl : l < s0.graph.length) (hg5 : s5.graph = s0.graph ++ (⟨g, cur, none, m⟩ : Node) :: new) :
-    Inv inst P dom lvl s5 ∧ Step inst P s0 s5 m := by
+    Inv inst P dom lvl fx s5 ∧ Step inst P s0 s5 m := by
   have hv : flagAt s1.stack s0.stack.length → old = (⟨g, cur, none, m⟩ : Node).solution := by
     intro hf
     cases hfl with
@@ -52,8 +52,16 @@ theorem After.finish_keep (A : After inst P dom lvl s0 st s1 g old cur m new) {s
     · rw [h1.2] at hd; cases hd
     · rw [(A.hnew n h1.2.1).1] at hd; cases hd
   constructor
-  · refine ⟨?_, ?_, ?_, ?_, ?_, ?_, ?_, ?_, ?_, ?_, ?_, ?_, ?_, ?_⟩
-    · rw [Pp.oracle, Pp.oracleDefault, Pp.interrupted]; exact A.i1.quiet
+  · refine ⟨A.fixes5 Pp.oracle Pp.oracleDefault Pp.interrupted, ?_, ?_, ?_, ?_, ?_, ?_, ?_, ?_, ?_, ?_, ?_, ?_, ?_, ?_⟩
+    · intro i n hn ha
+      rw [Pp.interrupted]
+      rw [hg5] at hn
+      obtain ⟨n', hn', hcase⟩ := A.node1 hn
+      cases hcase with
+      | inl h =>
+        rw [h.2.1] at ha
+        exact A.amb ha
+      | inr h => rw [← h.2] at ha; exact A.i1.amb i n' hn' ha
     · exact fun k v h => A.i1.cacheOK k v (Pp.inCache.mp h)
     · intro d e he
       obtain ⟨i, n, hn, hd, hc⟩ := A.popNode Pp d e he
@@ -117,11 +125,11 @@ theorem After.finish_keep (A : After inst P dom lvl s0 st s1 g old cur m new) {s
       · exact JV.mono (fun j hj => hj.from0 ⟨_, hg5⟩ (fun d hd => (A.popExt Pp).flag hd))
           (A.L.i0.just i n h1.2 hd htop)
       · rw [h1.2] at htop ⊢
-        cases A.fact with
-        | inl h => exact JV.mono (fun j hj => hwit hj) h.2
-        | inr h =>
-          have e : cur = topOf inst g := htop
-          rw [h.1] at e; exact absurd e.symm (topOf_ne_botOf inst g)
+        have e : cur = topOf inst g := htop
+        rcases A.fact with h | h | h
+        · exact JV.mono (fun j hj => hwit hj) h.2
+        · rw [h.1] at e; exact absurd e.symm (topOf_ne_botOf inst g)
+        · rw [h.1] at e; exact absurd e.symm (topOf_ne_ambig inst g)
       · have hn1 : s1.graph[i]? = some n := by rw [A.g1]; exact h1.2.2 _
         exact JV.mono (fun j hj => hwit hj) (A.i1.just i n hn1 hd htop)
     · intro i n l' hn hd hlk
@@ -149,7 +157,9 @@ theorem After.finish_keep (A : After inst P dom lvl s0 st s1 g old cur m new) {s
         obtain ⟨n5, hn5, hgo5⟩ := A.node5 (h5 := (⟨g, cur, none, m⟩ : Node)) rfl hn'
         exact ⟨n5, by rw [hg5]; exact hn5, by rw [hgo5]; exact hle⟩
   · refine ⟨⟨_, hg5, ?_⟩, A.popExt Pp, fun k v h => Pp.inCache.mpr (A.cacheExt k v h), ?_, ?_,
-      by rw [Pp.cache, A.step.cacheMode, A.L.cacheMode]⟩
+      by rw [Pp.cache, A.step.cacheMode, A.L.cacheMode],
+      (A.flags Pp.oracle Pp.oracleDefault Pp.interrupted).1,
+      (A.flags Pp.oracle Pp.oracleDefault Pp.interrupted).2⟩
     · intro n hn
       cases List.mem_cons.mp hn with
       | inl e => rw [e]; exact ⟨rfl, MinLe.refl _⟩
@@ -175,6 +185,133 @@ theorem After.finish_keep (A : After inst P dom lvl s0 st s1 g old cur m new) {s
           exact Or.inr ⟨rfl, hvn⟩
         · have hn1 : s1.graph[i]? = some n := by rw [A.g1]; exact h1.2.2 _
           exact Or.inl (Or.inr ⟨i, n, hn1, hgo, hvn⟩)
+
+/-- the iteration was interrupted while the head's cycle flag was set: everything above the head has
+    been rolled back (F10), the head stays in the graph with the answer `ambig` -/
+theorem After.finish_keep_amb (A : After inst P dom lvl fx s0 st s1 g old cur m new) (hcur : cur = .ambig)
+    {s5 : St} (Pp : Popped s0 s1 s5) (l : Nat) (hm : m = some l) (hl : l < s0.graph.length)
+    (hg5 : s5.graph = s0.graph ++ [(⟨g, .ambig, none, m⟩ : Node)]) :
+    Inv inst P dom lvl fx s5 ∧ Step inst P s0 s5 m := by
+  have hint : s1.interrupted = true := A.amb hcur
+  have hnode : ∀ {i : Nat} {n : Node}, s5.graph[i]? = some n →
+      (i < s0.graph.length ∧ s0.graph[i]? = some n) ∨
+      (i = s0.graph.length ∧ n = (⟨g, .ambig, none, m⟩ : Node)) := by
+    intro i n hn
+    rw [hg5] at hn
+    rcases mid_cases _ _ _ i n hn with h1 | h1 | h1
+    · exact Or.inl h1
+    · exact Or.inr h1
+    · cases h1.2.1
+  have hstk5 : ∀ {i : Nat} {n : Node} {d : Nat}, s5.graph[i]? = some n → n.stackDepth = some d →
+      s0.graph[i]? = some n := by
+    intro i n d hn hd
+    cases hnode hn with
+    | inl h => exact h.2
+    | inr h => rw [h.2] at hd; cases hd
+  have hflag : ∀ d, flagAt s0.stack d → flagAt s5.stack d := fun d hd => (A.popExt Pp).flag hd
+  constructor
+  · refine ⟨A.fixes5 Pp.oracle Pp.oracleDefault Pp.interrupted, ?_, ?_, ?_, ?_, ?_, ?_, ?_, ?_, ?_, ?_, ?_, ?_, ?_, ?_⟩
+    · intro i n hn ha
+      rw [Pp.interrupted]; exact hint
+    · exact fun k v h => A.i1.cacheOK k v (Pp.inCache.mp h)
+    · intro d e he
+      obtain ⟨i, n, hn, hd, hc⟩ := A.popNode Pp d e he
+      exact ⟨i, n, by rw [hg5]; exact getElem?_prefix hn, hd, hc⟩
+    · intro i n d i' n' d' hn hd hn' hd' hle
+      exact A.L.i0.chain i n d i' n' d' (hstk5 hn hd) hd (hstk5 hn' hd') hd' hle
+    · have := A.L.inv.nodup
+      rw [A.gt] at this
+      rw [hg5]
+      simpa [List.map_append, headNode] using this
+    · intro i n hn v hc
+      cases hnode hn with
+      | inl h => exact A.i1.disj i n (A.g0 h.2) v (Pp.inCache.mp hc)
+      | inr h =>
+        rw [h.2] at hc
+        exact A.i1.disj _ _ A.head v (Pp.inCache.mp hc)
+    · intro i n hn
+      cases hnode hn with
+      | inl h => exact A.L.i0.inDom i n h.2
+      | inr h => rw [h.2]; exact A.L.gdom
+    · intro i n hn
+      cases hnode hn with
+      | inl h => exact A.L.i0.val i n h.2
+      | inr h => rw [h.2]; exact Or.inr (Or.inr rfl)
+    · intro i n hn hb
+      cases hnode hn with
+      | inl h => exact A.L.i0.approx i n h.2 hb
+      | inr h =>
+        rw [h.2] at hb
+        have e : V.ambig = botOf inst g := hb
+        exact absurd e.symm (botOf_ne_ambig inst g)
+    · intro i n d hn hd
+      have := A.L.i0.stk i n d (hstk5 hn hd) hd
+      exact ⟨by rw [Pp.slen]; exact this.1, this.2⟩
+    · intro i n hn hd
+      cases hnode hn with
+      | inl h => exact A.L.i0.nonstk i n h.2 hd
+      | inr h => rw [h.2, h.1]; exact ⟨l, hm, hl⟩
+    · rw [hg5, stackGoals_append, Pp.slen, ← A.L.i0.cnt]
+      have : stackGoals [(⟨g, .ambig, none, m⟩ : Node)] = [] := by
+        apply stackGoals_nonstack
+        intro n hn
+        rw [List.mem_singleton.mp hn]
+      rw [this, List.append_nil]
+    · intro i n hn hd htop
+      cases hnode hn with
+      | inl h => exact JV.mono (fun j hj => hj.from0 ⟨_, hg5⟩ hflag) (A.L.i0.just i n h.2 hd htop)
+      | inr h =>
+        rw [h.2] at htop
+        have e : V.ambig = topOf inst g := htop
+        exact absurd e.symm (topOf_ne_ambig inst g)
+    · intro i n l' hn hd hlk
+      cases hnode hn with
+      | inl h =>
+        obtain ⟨n', hn', hle⟩ := A.L.i0.lvlLinks i n l' h.2 hd hlk
+        exact ⟨n', by rw [hg5]; exact getElem?_prefix hn', hle⟩
+      | inr h =>
+        rw [h.2] at hlk ⊢
+        have hlk' : m = some l' := hlk
+        cases A.link with
+        | inl e => rw [e] at hlk'; cases hlk'
+        | inr e =>
+          obtain ⟨l2, e2, hex⟩ := e
+          rw [hlk'] at e2
+          cases e2
+          have hll : l = l' := by rw [hm] at hlk'; exact Option.some.inj hlk'
+          have hlt2 : l' < st.graph.length := by
+            rw [A.gt, List.length_append]
+            omega
+          obtain ⟨n', hn', hle⟩ := hex hlt2
+          rw [A.g1] at hn'
+          rcases mid_cases _ _ _ l' n' hn' with h1 | h1 | h1
+          · exact ⟨n', by rw [hg5]; exact getElem?_prefix h1.2, hle⟩
+          · omega
+          · omega
+  · refine ⟨⟨_, hg5, ?_⟩, A.popExt Pp, fun k v h => Pp.inCache.mpr (A.cacheExt k v h), ?_, ?_,
+      by rw [Pp.cache, A.step.cacheMode, A.L.cacheMode],
+      (A.flags Pp.oracle Pp.oracleDefault Pp.interrupted).1,
+      (A.flags Pp.oracle Pp.oracleDefault Pp.interrupted).2⟩
+    · intro n hn
+      rw [List.mem_singleton.mp hn]; exact ⟨rfl, MinLe.refl _⟩
+    · intro k v h
+      cases h with
+      | inl h => exact Or.inl (Pp.inCache.mpr (A.cacheExt k v h))
+      | inr h =>
+        obtain ⟨i, n, hn, hgo, hvn⟩ := h
+        exact Or.inr ⟨i, n, by rw [hg5]; exact getElem?_prefix hn, hgo, hvn⟩
+    · intro k hu hd
+      apply loop_low A.L A.i1 A.step A.fact k hu
+      cases hd with
+      | inl h => exact Or.inl (Or.inl (Pp.inCache.mp h))
+      | inr h =>
+        obtain ⟨i, n, hn, hgo, hvn⟩ := h
+        cases hnode hn with
+        | inl h1 => exact absurd (Or.inr ⟨i, n, h1.2, hgo, hvn⟩) (hu _)
+        | inr h1 =>
+          rw [h1.2] at hvn
+          have e : V.ambig = botOf inst k := hvn
+          exact absurd e.symm (botOf_ne_ambig inst k)
 
 end
 
